@@ -871,6 +871,8 @@ class Simplifier:
         bound to a fresh local just before the statement (where inline_site then reads the helper in place)"""
         if isinstance(s, (ast.Assign, ast.Return, ast.Expr)):
             root, fld = s, 'value'
+        elif isinstance(s, ast.AugAssign) and isinstance(s.target, ast.Name):
+            root, fld = s, 'value'           # x += E: x is a local, nothing E does can change what was read from it
         elif isinstance(s, ast.If):
             root, fld = s, 'test'
         else:
@@ -878,9 +880,10 @@ class Simplifier:
         e = getattr(root, fld)
         if e is None or self.inlined >= 12:
             return None
-        if isinstance(e, ast.Call) and self._helper(e, local) is not None and not isinstance(s, ast.If):
+        whole = isinstance(s, (ast.If, ast.AugAssign))
+        if isinstance(e, ast.Call) and self._helper(e, local) is not None and not whole:
             return None                      # the whole value: inline_site's business
-        if isinstance(e, ast.Call) and self._helper(e, local) is not None and isinstance(s, ast.If):
+        if isinstance(e, ast.Call) and self._helper(e, local) is not None and whole:
             parent, f2, idx, call = root, fld, None, e
         else:
             hit = self._first_helper_call(e, local)
@@ -1017,7 +1020,7 @@ class Simplifier:
             # the names being bound must not be read by the helper's own code under another meaning
             if direct is not None:
                 tnames = {e.id for e in ([direct] if isinstance(direct, ast.Name) else direct.elts)}
-                if tnames & helper_names:
+                if tnames & {ren.get(x, x) for x in helper_names}:
                     direct = None
             body = _arms_to_assign([Subst(sub).visit(b) for b in tree], (direct if direct is not None else res) if how == 'assign' else None)
             out = pre + body
@@ -1192,6 +1195,7 @@ class Simplifier:
     def drop_dead_stores(self, local):
         """`x = <constant or function reference>` where x is read nowhere in the function"""
         loaded = {n.id for n in ast.walk(self.f) if isinstance(n, ast.Name) and isinstance(n.ctx, (ast.Load, ast.Del))}
+        loaded |= {n.target.id for n in ast.walk(self.f) if isinstance(n, ast.AugAssign) and isinstance(n.target, ast.Name)}   # x += 1 reads x
         params = set(_params(self.f.args))
         did = False
         for st in list(ast.walk(self.f)):
